@@ -103,3 +103,43 @@ package client
 //@   atcall WriteTo requires wholeDatagramBack: sameSlice(arg0.([]byte), buf[:n]) && arg1 == proxyAddr
 //@   loop 0 invariant buf: len(buf) == 8192 && stream != nil && localConn != nil
 //@   flag noframe
+
+// ---------------------------------------------------------------------------------------------
+// C06, client side of the TLS-mode handshake. The ClientHello carries the authentication payload in
+// three places: random = the ephemeral public key, session id = ciphertext[0:32], X25519 key share =
+// ciphertext[32:64] (what server.unmarshalClientHello reassembles). The reply is read as one record;
+// the sealed session key is nonce = payload[6:18], ciphertext+tag = payload[18:38] | payload[84:112]
+// (the ServerHello random and the key share, see server.composeServerHello); it is opened under the
+// shared secret of THIS handshake and what is opened is the session key returned.
+// buildClientHello is uTLS (assumed: returns a non-empty hello or an error; changes nothing visible).
+// ---------------------------------------------------------------------------------------------
+//@ func buildClientHello
+//@   flag trusted
+//@ func randomServerName
+//@   flag trusted
+//@ func strings.EqualFold
+//@   flag trusted
+//@ func (*DirectTLS).Handshake
+//@   requires tls != nil && rawConn != nil && holdsNone()
+//@   requires keyOK: typeIs[*[32]byte](authInfo.ServerPubKey) && authInfo.ServerPubKey.(*[32]byte) != nil && authInfo.WorldState.Rand != nil && len(authInfo.UID) == 16
+//@   atcall buildClientHello requires payloadPlacement: len(fields.random) == 32 && (forall k int :: 0 <= k && k < 32 ==> fields.random[k] == payload.randPubKey[k]) && len(fields.sessionId) == 32 && (forall k int :: 0 <= k && k < 32 ==> fields.sessionId[k] == payload.ciphertextWithTag[k]) && len(fields.x25519KeyShare) == 32 && (forall k int :: 0 <= k && k < 32 ==> fields.x25519KeyShare[k] == payload.ciphertextWithTag[32 + k])
+//@   atcall AddRecordLayer requires handshakeRecord: sameSlice(arg0.([]byte), ch) && arg1.(byte) == 22
+//@   atcall Write requires sendsTheHello: sameSlice(arg0.([]byte), chWithRecordLayer)
+//@   atcall AESGCMDecrypt requires opensTheReply: len(arg0.([]byte)) == 12 && (forall k int :: 0 <= k && k < 12 ==> arg0.([]byte)[k] == buf[6 + k]) && len(arg1.([]byte)) == 32 && (forall k int :: 0 <= k && k < 32 ==> arg1.([]byte)[k] == sharedSecret[k]) && len(arg2.([]byte)) == 48 && (forall k int :: 0 <= k && k < 20 ==> arg2.([]byte)[k] == buf[18 + k]) && (forall k int :: 0 <= k && k < 28 ==> arg2.([]byte)[20 + k] == buf[84 + k])
+//@   ensures keyIsWhatWasOpened: err == nil ==> succeeded("AESGCMDecrypt") && (forall k int :: 0 <= k && k < 32 && k < len(lastretOf[[]byte]("AESGCMDecrypt")) ==> sessionKey[k] == lastretOf[[]byte]("AESGCMDecrypt")[k])
+//@   flag noframe
+//@   loop 0 invariant rest: 0 <= i && i <= 2 && tls != nil && tls.TLSConn != nil && len(buf) == 1024 && holdsNone() && succeeded("AESGCMDecrypt") && (forall k int :: 0 <= k && k < 32 && k < len(lastretOf[[]byte]("AESGCMDecrypt")) ==> sessionKey[k] == lastretOf[[]byte]("AESGCMDecrypt")[k])
+
+// WebSocket mode: the payload travels base64-encoded in the "hidden" header as public key | ciphertext
+// (what server.unmarshalHidden splits again); the 60-byte reply is nonce[0:12] | sealed session key,
+// opened under the shared secret of this handshake.
+//@ func github.com/refraction-networking/utls.UClient
+//@   flag trusted
+//@   ensures ret0 != nil
+//@ func (*WSOverTLS).Handshake
+//@   requires ws != nil && rawConn != nil && holdsNone()
+//@   requires keyOK: typeIs[*[32]byte](authInfo.ServerPubKey) && authInfo.ServerPubKey.(*[32]byte) != nil && authInfo.WorldState.Rand != nil && len(authInfo.UID) == 16
+//@   atcall EncodeToString requires hiddenIsPayload: len(arg0.([]byte)) == 96 && (forall k int :: 0 <= k && k < 32 ==> arg0.([]byte)[k] == payload.randPubKey[k]) && (forall k int :: 0 <= k && k < 64 ==> arg0.([]byte)[32 + k] == payload.ciphertextWithTag[k])
+//@   atcall AESGCMDecrypt requires opensTheReply: len(arg0.([]byte)) == 12 && (forall k int :: 0 <= k && k < 12 ==> arg0.([]byte)[k] == buf[k]) && len(arg1.([]byte)) == 32 && (forall k int :: 0 <= k && k < 32 ==> arg1.([]byte)[k] == sharedSecret[k]) && len(arg2.([]byte)) == 48 && (forall k int :: 0 <= k && k < 48 ==> arg2.([]byte)[k] == buf[12 + k])
+//@   ensures keyIsWhatWasOpened: err == nil ==> succeeded("AESGCMDecrypt") && (forall k int :: 0 <= k && k < 32 && k < len(lastretOf[[]byte]("AESGCMDecrypt")) ==> sessionKey[k] == lastretOf[[]byte]("AESGCMDecrypt")[k])
+//@   flag noframe
